@@ -14,6 +14,7 @@ Definition op_pn  : str := [112; 110]%N.         (* pn *)
 Definition op_img : str := [105; 109; 103]%N.    (* img *)
 Definition op_med : str := [109; 101; 100]%N.    (* med *)
 Definition op_ren : str := [114; 101; 110]%N.    (* ren *)
+Definition op_phn : str := [112; 104; 110]%N.    (* phn *)
 
 Fixpoint take_n (n : nat) (l : list str) : option (list str * list str) :=
   match n with
@@ -106,7 +107,7 @@ Definition run_c06 (args : list str) : str :=
   | op :: rest =>
     if str_eqb op op_int then
       match rest with
-      | [s] => fields [show_bool (py_isdigit s); show_res show_Z (py_int s)]
+      | [s] => fields [show_bool (py_isdigit s); show_bool (py_isdecimal s); show_res show_Z (py_int s)]
       | _ => w_badcase
       end
     else if str_eqb op op_tab then
@@ -188,6 +189,15 @@ Definition run_c06 (args : list str) : str :=
       | ext :: m :: names =>
         match parse_nat m with
         | Some k => show_results show_str (repeat_alloc k (next_media_partname ext) names)
+        | None => w_badcase
+        end
+      | _ => w_badcase
+      end
+    else if str_eqb op op_phn then
+      match rest with
+      | base :: n :: names =>
+        match parse_N n with
+        | Some k => show_opt show_str (next_ph_name base k names)
         | None => w_badcase
         end
       | _ => w_badcase
